@@ -385,7 +385,7 @@ rng = ck.rng
 pair_cursor = [rng.below(144)]
 BASELINE_MODE = bool(os.environ.get("VERIF_C07_BASELINE"))   # maintenance: rewrite corpus/C07/ctests-baseline.json
 N_TARGET = 0 if BASELINE_MODE else 160 if QUICK else 4000
-GEN_BUDGET = BUDGET * (0.62 if QUICK else 0.65)
+GEN_BUDGET = BUDGET * (0.75 if QUICK else 0.65)
 tg = time.time()
 progs_meta = []          # (name, units) of programs that ran clean, for the oracle stages
 parse_line = re.compile(r"^(\S+) (-?\d+|-?0x[0-9a-f.]+p[-+]\d+)$")
